@@ -48,6 +48,10 @@ type scenarioParams struct {
 
 func main() {
 	f := lib.ParseFlags()
+	if os.Getenv("C08_PROBE") == "deployreplace" {
+		probeDeployReplace()
+		return
+	}
 	if os.Getenv("C08_PROBE") == "null" {
 		probeNull()
 		return
@@ -62,17 +66,21 @@ func main() {
 	h := &harness{f: f, res: res, programs: map[string]struct{}{}}
 	drv, err := lib.StartDriver(f.Driver)
 	if err != nil {
-		res.Note("driver: %v", err)
+		res.Fatalf("driver: %v", err)
 		lib.Finish(f, res)
 	}
 	defer drv.Close()
 	h.drv = drv
+	if err := h.probeVariant(); err != nil {
+		res.Fatalf("variant probe: %v", err)
+		lib.Finish(f, res)
+	}
 
 	var only *int
 	if f.Replay != "" {
 		raw, err := os.ReadFile(f.Replay)
 		if err != nil {
-			res.Note("replay: %v", err)
+			res.Fatalf("replay: %v", err)
 			lib.Finish(f, res)
 		}
 		// layout written by lib/vcheck.py: {"seed":…, "tier":…, "replay": {scenario, round, query, …}}
@@ -82,7 +90,7 @@ func main() {
 			Replay replaySpec `json:"replay"`
 		}
 		if err := json.Unmarshal(raw, &file); err != nil {
-			res.Note("replay: %v", err)
+			res.Fatalf("replay: %v", err)
 			lib.Finish(f, res)
 		}
 		h.replay = &file.Replay
@@ -104,8 +112,7 @@ func main() {
 			continue
 		}
 		if err := h.scenario(s, r, sp); err != nil {
-			res.Note("scenario %d: %v", s, err)
-			res.Mismatch(lib.Mismatch{Sig: "scenario-aborted", Input: s, Impl: err.Error()})
+			res.Fatalf("scenario %d aborted: %v", s, err)
 		}
 	}
 	res.SetExtra("programs", len(h.programs))
@@ -188,6 +195,15 @@ func (h *harness) scenario(s int, r *lib.RNG, sp scenarioParams) error {
 		case ht >= 1 && r.Chance(1, 5):
 			// L1 head positions: genesis, inside, the head, just ahead, far ahead
 			var n uint64
+			if r.Chance(1, 10) {
+				if err := w.setL1Zero(); err != nil {
+					return err
+				}
+				lines = append(lines, "l1 zero")
+				h.res.Hit("op:set-l1")
+				h.res.Hit("l1:zero-struct")
+				break
+			}
 			switch r.Intn(6) {
 			case 0:
 				n = 0
@@ -220,6 +236,13 @@ func (h *harness) scenario(s int, r *lib.RNG, sp scenarioParams) error {
 			lines = append(lines, storeLine(w.g.Head()))
 			h.res.Hit("op:store")
 			h.res.Hit("block-version:" + w.g.Head().Block.ProtocolVersion)
+			if len(w.g.Head().SU.StateDiff.ReplacedClasses) > 0 {
+				for a := range w.g.Head().SU.StateDiff.ReplacedClasses {
+					if _, ok := w.g.Head().SU.StateDiff.DeployedContracts[a]; ok {
+						h.res.Hit("diff:deploy-and-replace-same-contract")
+					}
+				}
+			}
 		}
 		w.traceSlot(op)
 		if op == sp.exhaustAt && s < 2 {
@@ -331,28 +354,24 @@ func (h *harness) queryRound(s, round int, w *world, r *lib.RNG, sp scenarioPara
 				h.programs[ver+"/"+q.kindKey()] = struct{}{}
 				ctx := &caseCtx{s: s, round: round, qi: qi, w: w, q: q, ver: ver, backend: backendName[ni]}
 
-				// (1) the property oracle
-				sig, stale := "", false
-				if !exp.skip {
-					h.checked++
-					if !exp.accepts(line) {
-						if q.method == "storage" {
-							w.debugStorage(&q.addr, &q.key)
-						}
-						sig, stale = h.violate(ctx, exp, line, resp)
-						violated[vi] = true
-					}
-				}
-				// (2) correspondence with the Lean model. The model is a model of the handlers and
-				// of the chain, not of the trie: an answer already attributed to the stale-leaf
-				// defect of the new state backend is not held against it.
-				if m, ok := model[slot{qi, vi, ni}]; ok && !stale {
+				// (2) correspondence with the Lean model (exact equality of the projection)
+				m, haveModel := model[slot{qi, vi, ni}]
+				if haveModel {
 					h.res.Compared(1)
 					if m != line {
 						h.res.Mismatch(lib.Mismatch{Sig: "model:" + ver + ":" + q.kindKey(), Input: ctx.request(), Model: m, Impl: line})
 					}
+				} else {
+					h.res.Fatalf("no model answer for %v", ctx.request())
 				}
-				if exp.skip || sig != "" {
+				// (1) the property oracle
+				h.checked++
+				if !exp.accepts(line) {
+					if q.method == "storage" {
+						w.debugStorage(&q.addr, &q.key)
+					}
+					h.violate(ctx, exp, line, m, resp)
+					violated[vi] = true
 					continue
 				}
 				// (3) deep comparison with the bundle
@@ -373,17 +392,13 @@ func (h *harness) queryRound(s, round int, w *world, r *lib.RNG, sp scenarioPara
 		for vi := range versions {
 			if got[vi][0] != got[vi][1] && !violated[vi] {
 				ctx := &caseCtx{s: s, round: round, qi: qi, w: w, q: q, ver: versions[vi], backend: "both"}
-				sig := "backends-disagree:" + versions[vi] + ":" + q.kindKey()
-				if q.method == "storageLU" && sameValueDifferentBlock(got[vi][0], got[vi][1]) {
-					sig = sigLastUpdateNoop
-				}
-				h.res.Violate(lib.Violation{Sig: sig,
+				h.res.Violate(lib.Violation{Sig: "backends-disagree:" + versions[vi] + ":" + q.kindKey(),
 					What:   fmt.Sprintf("%s %s: legacy backend answers %q, new backend answers %q", versions[vi], rpcName[q.method], got[vi][0], got[vi][1]),
 					Replay: ctx.replay(exps[vi].String(), got[vi][0]+" / "+got[vi][1])})
 			}
 		}
 		for vi := 1; vi < len(versions); vi++ {
-			if exps[vi].skip || exps[0].skip || exps[vi].String() != exps[vi-1].String() {
+			if exps[vi].String() != exps[vi-1].String() {
 				continue
 			}
 			if got[vi][0] != got[vi-1][0] && exps[vi].accepts(got[vi][0]) && exps[vi-1].accepts(got[vi-1][0]) {
@@ -422,6 +437,9 @@ func fieldOf(problem string) string {
 // lineOf projects a response to the model's answer line. obj is the decoded result (nil on
 // errors).
 func (h *harness) lineOf(w *world, q *query, resp rpcResp) (string, any) {
+	if strings.HasPrefix(resp.Broken, "panic") {
+		return "crash", nil // the handler panicked and the panic left jsonrpc.Server.HandleReader
+	}
 	if resp.Broken != "" {
 		return "broken:" + resp.Broken, nil
 	}
@@ -556,105 +574,136 @@ func (c *caseCtx) replay(expected, got string) map[string]any {
 // ways juno's handlers are known to leave the statement have their own signatures (each matched
 // only by its exact shape); anything else gets a signature built from version, method, id kind,
 // argument kind, the class of the expected answer and the class of the answer given.
-func (h *harness) violate(c *caseCtx, exp expectation, got string, resp rpcResp) (string, bool) {
+func (h *harness) violate(c *caseCtx, exp expectation, got, model string, resp rpcResp) string {
 	q := c.q
 	sig := fmt.Sprintf("%s:%s:want-%s:got-%s", c.ver, q.kindKey(), answerClass(exp.lines[0]), answerClass(got))
 	what := fmt.Sprintf("%s %s(%s) on the %s backend: the chain says %q, the node answers %q", c.ver, rpcName[q.method], paramsText(q, c.ver), c.backend, exp.String(), got)
 	if resp.Code != 0 && resp.Msg != "" {
 		what += " (" + resp.Msg + ")"
 	}
-	stale := false // the answer is a stale trie leaf, which the model does not follow
+	if resp.Broken != "" {
+		what += " (" + firstLine(resp.Broken) + ")"
+	}
+	// A known cause is recognised only by its exact shape AND only when the answer is the one the
+	// Lean model — which transcribes each known cause — predicts for this very request; any other
+	// divergence on the same kind of input keeps the generic signature (and is a model mismatch).
+	asModel := got == model
+	hasNull := q.nullPos != "" || (q.id != nil && q.id.tag == "null")
+	want := exp.lines[0]
 	switch {
-	case q.method == "txByIdx" && q.id.kind == "num-missing" && got == errLine(codeInvalidTxIndex) && exp.lines[0] == errLine(codeBlockNotFound):
-		sig = "getTransactionByBlockIdAndIndex-missing-block-number-reports-invalid-index"
-	case isStateMethod(q.method) && q.id != nil && q.id.kind == "hash-zero" && exp.lines[0] == errLine(codeBlockNotFound) &&
-		got == emptyStateAnswer(q.method, c.ver):
+	case !asModel:
+	case hasNull && want == errLine(codeInvalidParams) && got == "crash":
+		sig = sigNullCrash
+	case hasNull && want == errLine(codeInvalidParams):
+		sig = sigNullReaches
+	case q.id != nil && q.id.kind == "obj-null-number" && want == errLine(codeInvalidParams) && c.w.asBlockZero(q, c.ver, got):
+		sig = sigNullNumber
+	case q.method == "txByIdx" && q.id.kind == "num-missing" && q.index >= 0 && got == errLine(codeInvalidTxIndex) && want == errLine(codeBlockNotFound):
+		sig = sigMissingNumber
+	case isStateMethod(q.method) && q.id.kind == "hash-zero" && want == errLine(codeBlockNotFound) &&
+		c.backend == "legacy" && got == emptyStateAnswer(q.method, c.ver):
 		sig = sigHashZeroEmpty
-	case isStateMethod(q.method) && q.id != nil && q.id.kind == "hash-zero" && exp.lines[0] == errLine(codeBlockNotFound) &&
-		c.backend == "new" && strings.HasPrefix(got, "ok ") && c.w.headReaderAnswers(q, c.ver, got):
+	case isStateMethod(q.method) && q.id.kind == "hash-zero" && want == errLine(codeBlockNotFound) &&
+		c.backend == "new" && c.w.headStateAnswer(q, c.ver, got):
 		sig = sigHashZeroHead
-		lq := *q
-		lq.id = &blockID{tag: "latest", kind: "latest"}
-		stale = q.method == "storage" && (c.w.isFormerValue(q, got) || c.w.isRevertedValue(q, got)) && !c.w.expect(&lq, c.ver).accepts(got)
-	case q.method == "storage" && c.backend == "new" && c.w.usesHeadReader(q, c.ver) && exp.accepts("ok 0") && c.w.isFormerValue(q, got):
-		sig = sigStaleSlot
-		stale = true
-	case q.method == "storage" && c.backend == "new" && c.w.usesHeadReader(q, c.ver) && exp.accepts("ok 0") && c.w.isRevertedValue(q, got):
-		sig = sigStaleReverted
-		stale = true
+	case q.method == "storageLU" && c.backend == "legacy" && c.w.zeroOverZeroDispute(q, want, got):
+		sig = sigLastUpdateNoop
+	case c.w.l1Sentinel && strings.Contains(want, "L1") && got == strings.ReplaceAll(want, "L1", "L2"):
+		sig = sigL1Sentinel
 	}
 	h.res.Violate(lib.Violation{Sig: sig, What: what, Replay: c.replay(exp.String(), got)})
-	return sig, stale
+	return sig
+}
+
+func firstLine(s string) string {
+	if i := strings.IndexByte(s, '\n'); i >= 0 {
+		s = s[:i]
+	}
+	if len(s) > 200 {
+		s = s[:200]
+	}
+	return s
 }
 
 // Signatures of the ways juno is known to leave the statement (known/C08.json).
 const (
+	sigMissingNumber  = "getTransactionByBlockIdAndIndex-missing-block-number-reports-invalid-index"
 	sigHashZeroEmpty  = "state-read-at-block-hash-zero-answers-as-for-an-empty-state"
 	sigHashZeroHead   = "state-read-at-block-hash-zero-returns-head-state-data-on-new-backend"
-	sigStaleSlot      = "new-backend-head-read-returns-stale-value-of-zeroed-slot"
-	sigStaleReverted  = "new-backend-head-read-returns-value-written-by-reverted-block"
-	sigLastUpdateNoop = "getStorageAt-last-update-block-backends-disagree-on-zero-written-to-unset-slot"
+	sigLastUpdateNoop = "getStorageAt-last-update-block-legacy-backend-ignores-zero-written-to-unset-slot"
+	sigNullCrash      = "read-method-panics-on-null-argument"
+	sigNullReaches    = "null-argument-reaches-handler-instead-of-invalid-params"
+	sigNullNumber     = "block-number-null-served-as-block-0"
+	sigL1Sentinel     = "l1-head-recorded-as-zero-struct-shows-block-0-as-accepted-on-l2"
 )
 
-// usesHeadReader: does the handler serve this request from a head reader (`latest`, v8
-// `pending`, and block hash 0x0)?
-func (w *world) usesHeadReader(q *query, ver string) bool {
-	if q.id == nil {
-		return false
-	}
-	return q.id.tag == "latest" || q.id.sem(ver) == "pending" || q.id.kind == "hash-zero"
-}
-
-// isFormerValue: is `got` ("ok v", v != 0) a value the slot held at some earlier block of the
-// current chain?
-func (w *world) isFormerValue(q *query, got string) bool {
-	if !strings.HasPrefix(got, "ok ") || got == "ok 0" {
-		return false
-	}
-	for _, st := range w.g.States {
-		if c, ok := st.Contracts[q.addr]; ok {
-			if v, ok := c.Storage[q.key]; ok && "ok "+hxv(v) == got {
-				return true
-			}
-		}
-	}
-	return false
-}
-
-// isRevertedValue: is `got` ("ok v", v != 0) a value that only blocks no longer on the chain wrote
-// to the slot?
-func (w *world) isRevertedValue(q *query, got string) bool {
-	if !strings.HasPrefix(got, "ok ") || got == "ok 0" || w.isFormerValue(q, got) {
-		return false
-	}
-	for v := range w.everWritten[[2]felt.Felt{q.addr, q.key}] {
-		if "ok "+hxv(v) == got {
-			return true
-		}
-	}
-	return false
-}
-
-// headReaderAnswers: is `got` what the handler answers when handed a reader of the head state
-// (what block hash 0x0 yields on the new backend)? Either the answer for `latest`, or, where the
-// handler's own "contract exists" probe is tied to `latest` (v10 getStorageAt), the raw slot
-// value; a stale former value of the slot (see sigStaleSlot) is attributed here too.
-func (w *world) headReaderAnswers(q *query, ver, got string) bool {
+// headStateAnswer: is `got` what the handler answers when block hash 0x0 hands it a reader of the
+// CURRENT HEAD state (new backend)? That is the answer for `latest`, except that v10 getStorageAt
+// does its "does the contract exist" probe only for `latest` and so returns the raw slot value.
+func (w *world) headStateAnswer(q *query, ver, got string) bool {
 	if w.height() == 0 {
 		return got == emptyStateAnswer(q.method, ver)
 	}
 	lq := *q
 	lq.id = &blockID{tag: "latest", kind: "latest"}
-	if w.expect(&lq, ver).accepts(got) {
-		return true
+	e := w.expect(&lq, ver)
+	if ver == "v10" && (q.method == "storage" || q.method == "storageLU") && e.accepts(errLine(codeContractNotFound)) {
+		return got == "ok 0" || strings.HasPrefix(got, "ok 0 @")
 	}
-	if q.method == "storage" {
-		return got == "ok 0" || w.isFormerValue(q, got) || w.isRevertedValue(q, got)
+	return e.accepts(got)
+}
+
+// asBlockZero: is `got` the answer the same request gets with {"block_number": 0} (as juno
+// answers it)?
+func (w *world) asBlockZero(q *query, ver, got string) bool {
+	zq := *q
+	zq.id = &blockID{tag: "number", num: 0, kind: "num-existing"}
+	if w.height() == 0 {
+		zq.id.kind = "num-missing"
+		if zq.method == "txByIdx" && q.index >= 0 {
+			return got == errLine(codeInvalidTxIndex) // the other known deviation (missing block number)
+		}
 	}
-	if q.method == "storageLU" {
-		return strings.HasPrefix(got, "ok 0 @")
+	return w.expect(&zq, ver).accepts(got)
+}
+
+// zeroOverZeroDispute: want = "ok v @j" (the newest block that wrote the slot), got = "ok v @i"
+// with i < j, and every write of the slot in blocks i+1..j wrote zero over zero.
+func (w *world) zeroOverZeroDispute(q *query, want, got string) bool {
+	fw, fg := strings.Fields(want), strings.Fields(got)
+	if len(fw) != 3 || len(fg) != 3 || fw[1] != fg[1] || !strings.HasPrefix(fw[2], "@") || !strings.HasPrefix(fg[2], "@") {
+		return false
 	}
-	return false
+	var j, i int
+	if _, err := fmt.Sscanf(fw[2], "@%x", &j); err != nil {
+		return false
+	}
+	if _, err := fmt.Sscanf(fg[2], "@%x", &i); err != nil {
+		return false
+	}
+	if i >= j || j >= w.height() {
+		return false
+	}
+	slot := func(n int) felt.Felt {
+		var v felt.Felt
+		if n >= 0 {
+			if c, ok := w.g.States[n].Contracts[q.addr]; ok {
+				v = c.Storage[q.key]
+			}
+		}
+		return v
+	}
+	for n := i + 1; n <= j; n++ {
+		if kv, ok := w.g.Bundles[n].SU.StateDiff.StorageDiffs[q.addr]; ok {
+			if v, ok := kv[q.key]; ok {
+				prev := slot(n - 1)
+				if !v.IsZero() || !prev.IsZero() {
+					return false
+				}
+			}
+		}
+	}
+	return true
 }
 
 // emptyStateAnswer is what a handler answers when it is given the empty (pre-genesis) state.
@@ -799,9 +848,33 @@ func sameFelt(s string, f *felt.Felt) bool {
 	return err == nil && g.Equal(f)
 }
 
-// sameValueDifferentBlock: two "ok <value> @<block>" answers with the same value but different
-// block numbers.
-func sameValueDifferentBlock(a, b string) bool {
-	fa, fb := strings.Fields(a), strings.Fields(b)
-	return len(fa) == 3 && len(fb) == 3 && fa[0] == "ok" && fb[0] == "ok" && fa[1] == fb[1] && fa[2] != fb[2]
+// probeVariant asks the real code the two questions the model has a switch for (Model.lean `Cfg`)
+// and tells the driver which variant it is looking at: does a JSON null for a pointer parameter
+// reach (and crash) the handler, and is {"block_number": null} decoded as block 0?
+func (h *harness) probeVariant() error {
+	w, err := newWorld(lib.NewRNG(7), false, lib.DefaultGenOptions())
+	if err != nil {
+		return err
+	}
+	if err := w.nextWith(emptyDiff()); err != nil {
+		return err
+	}
+	nullCrashes, nullZero := 0, 0
+	if r := w.nodes[0].call("v10", "starknet_getNonce", []any{nil, "0x1"}); strings.HasPrefix(r.Broken, "panic") {
+		nullCrashes = 1
+	} else if r.Code != codeInvalidParams {
+		return fmt.Errorf("getNonce [null, 0x1] answers neither with a panic nor with invalid params: %+v", r)
+	}
+	if r := w.nodes[0].call("v10", "starknet_getBlockTransactionCount", []any{map[string]any{"block_number": nil}}); r.Code == 0 && r.Broken == "" {
+		nullZero = 1
+	} else if r.Code != codeInvalidParams {
+		return fmt.Errorf("{block_number: null} is neither served nor refused as invalid params: %+v", r)
+	}
+	h.res.Hit(fmt.Sprintf("variant:null-crashes=%d", nullCrashes))
+	h.res.Hit(fmt.Sprintf("variant:null-number-is-zero=%d", nullZero))
+	ans, err := h.drv.Ask(fmt.Sprintf("cfg %d %d", nullCrashes, nullZero))
+	if err != nil || ans != "ok" {
+		return fmt.Errorf("driver refuses cfg: %q %v", ans, err)
+	}
+	return nil
 }
